@@ -623,6 +623,10 @@ class Node:
         if not attr_node.is_mapping():
             return
 
+        for item_key, _ in attr_node.yaml_node.value:
+            if not isinstance(item_key, yaml.ScalarNode):
+                return      # invalid format, keys must be scalars
+
         if value_attribute is None:
             for _, item_value in attr_node.yaml_node.value:
                 if not Node(item_value).is_mapping():
